@@ -61,6 +61,11 @@ pub fn core_spaces(tier: &str, seed: i64, heavy: bool) -> Vec<Space> {
         v.push(Space::all(Universe::UCE));
         v.push(Space::all(Universe::UEX));
         if heavy {
+            v.push(Space::slice(Universe::UPP, 16, off));
+        } else {
+            v.push(Space::slice(Universe::UPP, 2, off));
+        }
+        if heavy {
             v.push(Space::slice(Universe::UPIN, 4, off));
             v.push(Space::slice(Universe::UDBL, 4, off));
         } else {
@@ -110,6 +115,7 @@ pub fn core_spaces(tier: &str, seed: i64, heavy: bool) -> Vec<Space> {
         v.push(Space::all(Universe::UEA));
         v.push(Space::all(Universe::UCE));
         v.push(Space::all(Universe::UEX));
+        v.push(Space::all(Universe::UPP));
         v.push(Space::all(Universe::UPIN));
         v.push(Space::all(Universe::UDBL));
         v.push(Space::all(Universe::UCK { extras: 0 }));
